@@ -39,6 +39,12 @@ type Engine struct {
 	need           int
 	stale          []string
 	globalIDs      map[*ssa.Global]int
+	curProp        string
+}
+
+// active: a clause takes part in the current property's check iff it is untagged or carries the property's tag.
+func (e *Engine) active(tags []string) bool {
+	return e.curProp == "" || len(tags) == 0 || hasTag(tags, e.curProp)
 }
 
 type SpecDB struct {
@@ -210,6 +216,9 @@ func (e *Engine) loadSpecs(externDir string) error {
 			if _, dup := db.funcs[name]; dup {
 				return fmt.Errorf("%s: duplicate spec for %s", f.Line, name)
 			}
+			if fn := e.funcsByName[name]; fn == nil || len(fn.Blocks) == 0 {
+				f.Extern = true // interface method or body-less function: the contract is assumed
+			}
 			db.funcs[name] = f
 		}
 	}
@@ -225,6 +234,9 @@ func (e *Engine) resolveFuncKey(pkgPath, key string, extern bool) (string, error
 	if k := strings.Index(key, "$"); k >= 0 {
 		anon = key[k:]
 		key = key[:k]
+	}
+	if key == "(error).Error" || key == "error.Error" {
+		return "(error).Error", nil
 	}
 	// explicit full names:  (*pkg/path.T).M   (pkg/path.T).M   pkg/path.F
 	if strings.HasPrefix(key, "(") || strings.Contains(key, "/") || extern {
